@@ -10,10 +10,10 @@
 (* Every finished run over a font map in EmitIds (realisable ones only) is printed for replay into lopdf. *)
 EXTENDS TextExtract, Json
 
-CONSTANTS N, FmIds, EmitIds
+CONSTANTS N, NPre, FmIds, EmitIds, Rep
 
-VARIABLES fmid, ops, st, pc
-vars == <<fmid, ops, st, pc>>
+VARIABLES fmid, ops, st, pc, pre
+vars == <<fmid, ops, st, pc, pre>>
 
 -----------------------------------------------------------------------------
 (* the abstract alphabet: codes 65 66 32 10 233 129; characters are the scalar values the concrete  *)
@@ -41,6 +41,8 @@ FontsJson == [id \in {"domain", "plain", "broken"} |->
                                           ELSE [kind |-> Fm(id)[n].kind, cells |-> <<>>]]]
 ASSUME PrintT(<<"FONTS", ToJson(FontsJson)>>)
 
+AsCode == {}
+
 Nm(n) == [k |-> "name", v |-> n]
 S(cs) == [k |-> "str", v |-> cs]
 Ar(os) == [k |-> "arr", v |-> os]
@@ -63,32 +65,48 @@ Alphabet == <<
     Op("Tj", <<S(<<>>)>>),
     Op("TJ", <<>>),
     Op("ET", <<>>), Op("BT", <<>>),
-    Op("'", <<S(<<65>>)>>) >>                                     \* shows text too, but the extractor ignores it
+    Op("'", <<S(<<65>>)>>),                                       \* move to the next line and show
+    Op("\"", <<I(-200), I(0), S(<<233>>)>>),                      \* set the spacings (no TJ gap), next line, show
+    Op("q", <<>>), Op("Q", <<>>) >>
 
 Idx(kind) == {i \in 1..Len(Alphabet) : OpKind(Alphabet[i]) = kind}
 
+\* Longer runs start from a prefix that a short run cannot reach: a font selected inside q ... (the runs go on
+\* with NPre more operations: Q, text shown under the restored font, ...)
+StartOps(id) == IF id \in {"domain", "plain"}
+                THEN {<<>>, <<Op("Tf", <<Nm("F1"), I(12)>>), Op("q", <<>>), Op("Tf", <<Nm("F2"), I(12)>>)>>}
+                ELSE {<<>>}
+
 Init == /\ fmid \in FmIds
-        /\ ops = <<>>
-        /\ st = Start(Fm(fmid))
+        /\ ops \in StartOps(fmid)
+        /\ st = FoldLeft(LAMBDA s, o : StepR(Fm(fmid), s, o, Rep), Start(Fm(fmid)), ops)
+        /\ pre = Len(ops)
         /\ pc = "run"
 
 Do(i) == /\ ops' = Append(ops, Alphabet[i])
-         /\ st' = Step(Fm(fmid), st, Alphabet[i])
-         /\ UNCHANGED <<fmid, pc>>
+         /\ st' = StepR(Fm(fmid), st, Alphabet[i], Rep)
+         /\ UNCHANGED <<fmid, pc, pre>>
 
-More == pc = "run" /\ Len(ops) < N
+More == pc = "run" /\ Len(ops) - pre < (IF pre = 0 THEN N ELSE NPre)
+
+\* every name that is not a usable font of the page behaves alike: F9 stands for them (FB where the page has a broken font)
+UnknownNames == {"F9"} \cup Broken(Fm(fmid))
 
 TfKnown     == More /\ \E i \in Idx("TfName") : Alphabet[i].args[1].v \in Known(Fm(fmid)) /\ Do(i)
-TfUnknown   == More /\ \E i \in Idx("TfName") : Alphabet[i].args[1].v \notin Known(Fm(fmid)) /\ Do(i)
+TfUnknown   == More /\ \E i \in Idx("TfName") : Alphabet[i].args[1].v \in UnknownNames /\ Do(i)
 TfNotName   == More /\ \E i \in Idx("TfNotName") : Do(i)
 TfNoOperand == More /\ \E i \in Idx("TfNoOperand") : Do(i)
 Show        == More /\ st.enc # "none" /\ ~st.failed /\ \E i \in Idx("Show") : Do(i)
 ShowNothing == More /\ (st.enc = "none" \/ st.failed) /\ \E i \in Idx("Show") : Do(i)
+QuoteOp     == More /\ \E i \in Idx("Quote") : Do(i)
+SaveFont    == More /\ \E i \in Idx("Save") : Do(i)
+RestoreFont == More /\ \E i \in Idx("Restore") : Do(i)
 EndText     == More /\ \E i \in Idx("ET") : Do(i)
 Other       == More /\ \E i \in Idx("Other") : Do(i)
-End         == pc = "run" /\ pc' = "done" /\ UNCHANGED <<fmid, ops, st>>
+End         == pc = "run" /\ pc' = "done" /\ UNCHANGED <<fmid, ops, st, pre>>
 
-Next == TfKnown \/ TfUnknown \/ TfNotName \/ TfNoOperand \/ Show \/ ShowNothing \/ EndText \/ Other \/ End
+Next == TfKnown \/ TfUnknown \/ TfNotName \/ TfNoOperand \/ Show \/ ShowNothing \/ QuoteOp \/ SaveFont \/ RestoreFont
+        \/ EndText \/ Other \/ End
 
 Spec == Init /\ [][Next]_vars
 
@@ -96,19 +114,38 @@ Spec == Init /\ [][Next]_vars
 Done == pc = "done"
 Chunks == Finish(st)
 ET == ExtractText(Chunks)
+\* a layer R can only differ from the layer run where the operations a switch is about occur
+HasOp(names) == \E i \in 1..Len(ops) : ops[i].op \in names
+Trigger(r) == CASE r = "quote-ops" -> HasOp({"'", "\""}) [] r = "gstate-font" -> HasOp({"Q"}) [] r = "et-flag" -> HasOp({"ET"})
+RunAs(R) == IF \E r \in (R \ Rep) \cup (Rep \ R) : Trigger(r) THEN RunR(Fm(fmid), ops, R) ELSE Chunks
+Repaired == RunAs(AllReps)
 
-FunctionForm == Done => Chunks = Run(Fm(fmid), ops)
-A == Done => ClauseA(Fm(fmid), ops, Chunks)
-B == Done => ClauseB(Fm(fmid), ops, Chunks)
+FunctionForm == Done => Chunks = RunR(Fm(fmid), ops, Rep)
+\* the clauses hold for the layer as run wherever the page needs no repair the layer lacks ...
+A == Done => (Needs(Fm(fmid), ops) \subseteq Rep => ClauseA(Fm(fmid), ops, Chunks))
+B == Done => (Needs(Fm(fmid), ops) \subseteq Rep => ClauseB(Fm(fmid), ops, Chunks))
 C == Done => ClauseC(Chunks, ET)
-\* what C16 states: inside its domain the shown text comes back
-Domain == Done => (InDomain(Fm(fmid), ops) => ReturnsShown(Fm(fmid), ops, ET))
+\* ... and for the fully repaired layer everywhere
+AR == Done => ClauseA(Fm(fmid), ops, Repaired)
+BR == Done => ClauseB(Fm(fmid), ops, Repaired)
+\* what C16 states: inside its domain the shown text comes back -- from the repaired layer always, from the layer
+\* as run unless the page needs a repair it lacks (every loss is classified by Needs)
+Domain == Done => (InDomain(Fm(fmid), ops) => ReturnsShown(Fm(fmid), ops, ExtractText(Repaired)))
+Classified == Done => (InDomain(Fm(fmid), ops) /\ ~ReturnsShown(Fm(fmid), ops, ET) => ~(Needs(Fm(fmid), ops) \subseteq Rep))
+\* the separator repair never changes the text, only the layout
+FlagLayoutOnly == Done => LET x == ExtractText(RunAs(Rep \cup {"et-flag"})) IN x.ok = ET.ok /\ Strip(x.t) = Strip(ET.t)
 \* a broken font makes every extract_text fail
 BrokenFails == (Done /\ Broken(Fm(fmid)) # {}) => ~ET.ok
 
+\* the other layers whose result differs from the one run: the check script accepts any of them as "exact"
+Alts == LET cand == {R \in SUBSET AllReps : R # Rep /\ \E r \in (R \ Rep) \cup (Rep \ R) : Trigger(r)}
+            others == {R \in cand : RunR(Fm(fmid), ops, R) # Chunks}
+        IN SetToSeq({[rep |-> SetToSeq(R), chunks |-> RunR(Fm(fmid), ops, R), et |-> ExtractText(RunR(Fm(fmid), ops, R))] : R \in others})
+
 EmitInv ==
     (fmid \in EmitIds /\ Done /\ Realisable(fmid)) =>
-        PrintT(<<"REPLAY", ToJson([fm |-> fmid, ops |-> ops, chunks |-> Chunks, et |-> ET,
+        PrintT(<<"REPLAY", ToJson([fm |-> fmid, ops |-> ops, chunks |-> Chunks, et |-> ET, rep |-> SetToSeq(Rep),
                                    indomain |-> InDomain(Fm(fmid), ops), clean |-> Clean(Fm(fmid), ops),
-                                   shown |-> AllShown(Fm(fmid), ops)])>>)
+                                   shown |-> AllShown(Fm(fmid), ops), needs |-> SetToSeq(Needs(Fm(fmid), ops)),
+                                   alts |-> Alts])>>)
 =============================================================================
